@@ -77,6 +77,7 @@ static int tasks_ran_this_round;
 static struct ktime last_reading;
 static int have_reading;
 static int main_tid;
+static int closed_for_probe;
 static int in_probe;		/* inside iv_fd_register_try: the poll methods probe the descriptor with poll() */
 
 static void h_in(void *c);
@@ -195,9 +196,11 @@ static void op_fd_register(struct fdrec *r, int pattern, int try)
 			fail = sx_choose(2);
 			if (fail) {
 				if (P_method >= 2) {
-					/* poll methods probe the descriptor: make it invalid */
+					/* poll methods probe the descriptor: it is closed at this moment; the
+					 * number is handed out again to a new descriptor right afterwards */
 					sx_cover("C07.register_try-fails");
-					fd->fd = 17;	/* a closed descriptor */
+					kfds[r->kfd].kind = K_FREE;
+					closed_for_probe = 1;
 				} else {
 					k_epoll_ctl_fail_fd = r->kfd;
 					sx_cover("C07.register_try-fails");
@@ -207,6 +210,10 @@ static void op_fd_register(struct fdrec *r, int pattern, int try)
 		in_probe = 1;
 		ret = iv_fd_register_try(fd);
 		in_probe = 0;
+		if (closed_for_probe) {
+			kfds[r->kfd].kind = K_GENERIC;	/* the descriptor number is in use again */
+			closed_for_probe = 0;
+		}
 		k_epoll_ctl_fail_fd = -1;
 		if (fail) {
 			sx_assert(ret != 0, "C07.register_try-reported-success-on-failure");
